@@ -36,6 +36,7 @@ const (
 	ekTwoInputsTwoSigs   // the same, signed by both keys (still not a legal batch: one input address per batch)
 	ekMalleatedTwin      // an RCD-e signed transfer followed by a third party's copy of it with the last signature byte altered
 	ekCorruptTwin        // an ed25519 signed transfer followed by a copy whose signature bytes were altered (no longer verifies)
+	ekHugeAmount         // a correctly signed transfer or conversion whose amount does not fit in int64
 	ekKinds
 )
 
@@ -139,6 +140,17 @@ func vrtMakeEntry(kind int, hash *factom.Bytes32, blockTime int64, height uint32
 		e.Content = vrt.Blob(batch)
 		vrt.SignEntry(&e, salt, []int{0}, []bool{true}, 0, false)
 		sp.valid = inWindow && height > specRCDE
+	case ekHugeAmount:
+		// amounts are 64-bit unsigned on the wire; the ledger stores int64: anybody can sign this
+		huge := vrt.URange("huge", 1<<63, 1<<64-1)
+		if vrt.Choose("hugeKind", 2) == 1 {
+			batch = vrtConversionBatch(A, huge, fat2.PTickerXBT)
+		} else {
+			batch = vrtTransferBatch(A, B, huge)
+		}
+		e.Content = vrt.Blob(vrtRawBatch{Version: 1, Transactions: batch.Transactions})
+		vrt.SignEntry(&e, salt, []int{0}, []bool{false}, 0, false)
+		sp.valid = false
 	case ekExtraExtID:
 		e.Content = vrt.Blob(batch)
 		vrt.SignEntry(&e, salt, []int{0}, []bool{false}, 1, false)
@@ -398,7 +410,10 @@ func VerifTxBlock() {
 			return
 		}
 		vrt.Cover("fault-survived")
-		vrt.Assert("C10.statement-fault-fails-the-block-or-changes-nothing", vrt.SameStore(vrt.Snapshot(dbF), vrt.Snapshot(dbR)))
+		sameAsFaultFree := vrt.SameStore(vrt.Snapshot(dbF), vrt.Snapshot(dbR))
+		vrt.Assert("C10.statement-fault-fails-the-block-or-changes-nothing", sameAsFaultFree)
+		// read as C02: a block that reports success holds ALL of its effects (never a part of them)
+		vrt.Assert("C02.block-reported-applied-holds-all-its-effects", sameAsFaultFree)
 		return
 	}
 	db := vrt.NewDB()
